@@ -4,5 +4,183 @@ import Vet.Model.Imports
 import Vet.Props.C04
 import Vet.Props.C03
 import Vet.Lemmas.PreserveSearch
+import Vet.Lemmas.MapperSpec
+import Vet.Lemmas.PreserveBuild
+import Vet.Lemmas.PreserveResolve
 namespace Vet
+
+/-! ### sums of naturals -/
+
+theorem sum_eq_zero_iff (l : List Nat) : l.sum = 0 ↔ ∀ x ∈ l, x = 0 := by
+  induction l with
+  | nil => simp
+  | cons a rest ih =>
+    simp only [List.sum_cons, List.mem_cons, forall_eq_or_imp, ← ih]
+    omega
+
+theorem map_sum_eq_zero_iff {α : Type} (l : List α) (f : α → Nat) :
+    (l.map f).sum = 0 ↔ ∀ x ∈ l, f x = 0 := by
+  rw [sum_eq_zero_iff]
+  simp only [List.mem_map, forall_exists_index, and_imp, forall_apply_eq_imp_iff₂]
+
+theorem le_sum_of_mem {l : List Nat} {x : Nat} (h : x ∈ l) : x ≤ l.sum := by
+  induction l with
+  | nil => cases h
+  | cons a rest ih =>
+    simp only [List.sum_cons]
+    rcases List.mem_cons.1 h with rfl | h
+    · omega
+    · have := ih h
+      omega
+
+theorem le_map_sum_of_mem {α : Type} {l : List α} (f : α → Nat) {x : α} (h : x ∈ l) :
+    f x ≤ (l.map f).sum :=
+  le_sum_of_mem (List.mem_map.2 ⟨x, h, rfl⟩)
+
+/-! ### `badRefs` -/
+
+theorem badRefs_eq_zero_iff (n : Nat) (l : List Nat) : badRefs n l = 0 ↔ ∀ c ∈ l, c < n := by
+  unfold badRefs
+  rw [List.length_eq_zero_iff, List.filter_eq_nil_iff]
+  constructor
+  · intro h c hc
+    have := h c hc
+    simp only [decide_eq_true_eq] at this
+    omega
+  · intro h c hc
+    have := h c hc
+    simp only [decide_eq_true_eq]
+    omega
+
+theorem badRefs_pos {n : Nat} {l : List Nat} {c : Nat} (hc : c ∈ l) (hbad : n ≤ c) :
+    0 < badRefs n l := by
+  apply Nat.pos_of_ne_zero
+  intro h
+  have := (badRefs_eq_zero_iff n l).1 h c hc
+  omega
+
+/-- the nested count used for exemptions, audits and wildcard audits -/
+theorem nested_eq_zero_iff {α : Type} (n : Nat) (t : List (Nat × List α)) (crit : α → List Nat) :
+    (t.map (fun e => (e.2.map (fun x => badRefs n (crit x))).sum)).sum = 0 ↔
+      ∀ e ∈ t, ∀ x ∈ e.2, ∀ c ∈ crit x, c < n := by
+  rw [map_sum_eq_zero_iff]
+  constructor
+  · intro h e he x hx
+    exact (badRefs_eq_zero_iff n _).1 ((map_sum_eq_zero_iff _ _).1 (h e he) x hx)
+  · intro h e he
+    exact (map_sum_eq_zero_iff _ _).2 (fun x hx => (badRefs_eq_zero_iff n _).2 (h e he x hx))
+
+theorem nested_pos {α : Type} {n : Nat} {t : List (Nat × List α)} (crit : α → List Nat)
+    {e : Nat × List α} (he : e ∈ t) {x : α} (hx : x ∈ e.2) {c : Nat} (hc : c ∈ crit x) (hbad : n ≤ c) :
+    0 < (t.map (fun e => (e.2.map (fun x => badRefs n (crit x))).sum)).sum := by
+  apply Nat.pos_of_ne_zero
+  intro h
+  have := (nested_eq_zero_iff n t crit).1 h e he x hx c hc
+  omega
+
+/-! ### the policy part -/
+
+theorem policyEntryBad_eq_zero_iff (n : Nat) (e : PolicyEntry) :
+    policyEntryBad n e = 0 ↔
+      (∀ l, e.criteria = some l → ∀ c ∈ l, c < n) ∧ (∀ l, e.devCriteria = some l → ∀ c ∈ l, c < n) ∧
+      (∀ d ∈ e.depCriteria, ∀ c ∈ d.2, c < n) := by
+  unfold policyEntryBad
+  have h3 := map_sum_eq_zero_iff e.depCriteria (fun d => badRefs n d.2)
+  have h1 : badRefs n (e.criteria.getD []) = 0 ↔ ∀ l, e.criteria = some l → ∀ c ∈ l, c < n := by
+    rw [badRefs_eq_zero_iff]
+    cases e.criteria with
+    | none => simp
+    | some l => simp
+  have h2 : badRefs n (e.devCriteria.getD []) = 0 ↔ ∀ l, e.devCriteria = some l → ∀ c ∈ l, c < n := by
+    rw [badRefs_eq_zero_iff]
+    cases e.devCriteria with
+    | none => simp
+    | some l => simp
+  rw [← h1, ← h2]
+  have h3' : (∀ d ∈ e.depCriteria, ∀ c ∈ d.2, c < n) ↔ ∀ d ∈ e.depCriteria, badRefs n d.2 = 0 := by
+    constructor
+    · intro h d hd
+      exact (badRefs_eq_zero_iff n _).2 (h d hd)
+    · intro h d hd
+      exact (badRefs_eq_zero_iff n _).1 (h d hd)
+  rw [h3', ← h3]
+  omega
+
+/-- where `Policy.get` finds its entry -/
+theorem policy_get_mem {p : Policy} {name ver : Nat} {e : PolicyEntry} (h : p.get name ver = some e) :
+    (name, PkgPolicy.unversioned e) ∈ p ∨ ∃ vs, (name, PkgPolicy.versioned vs) ∈ p ∧ (ver, e) ∈ vs := by
+  unfold Policy.get at h
+  split at h
+  · cases h
+  · rename_i e' he'
+    cases h
+    exact .inl (assoc?_mem_of_some he')
+  · rename_i vs hvs
+    exact .inr ⟨vs, assoc?_mem_of_some hvs, assoc?_mem_of_some h⟩
+
+theorem policyBad_zero_get {n : Nat} {p : Policy} (h : policyBad n p = 0) {name ver : Nat} {e : PolicyEntry}
+    (hg : p.get name ver = some e) : policyEntryBad n e = 0 := by
+  unfold policyBad at h
+  rw [map_sum_eq_zero_iff] at h
+  rcases policy_get_mem hg with hm | ⟨vs, hm, hv⟩
+  · exact h _ hm
+  · have := h _ hm
+    simp only at this
+    rw [map_sum_eq_zero_iff] at this
+    exact this _ hv
+
+/-! ### `invalidCriteriaCount` -/
+
+theorem invalidCriteriaCount_eq_zero {t : Table} {s : Store} (h : invalidCriteriaCount t s = 0) :
+    (∀ e ∈ s.exemptions, ∀ x ∈ e.2, ∀ c ∈ x.criteria, c < t.n) ∧
+    policyBad t.n s.policy = 0 ∧
+    (∀ c ∈ t, ∀ i ∈ c.implies, i < t.n) ∧
+    (∀ e ∈ s.locals.audits, ∀ a ∈ e.2, ∀ c ∈ a.criteria, c < t.n) ∧
+    (∀ e ∈ s.locals.wildcards, ∀ a ∈ e.2, ∀ c ∈ a.criteria, c < t.n) := by
+  unfold invalidCriteriaCount at h
+  simp only at h
+  have h1 := nested_eq_zero_iff t.n s.exemptions (fun x : Exemption => x.criteria)
+  have h4 := nested_eq_zero_iff t.n s.locals.audits (fun x : Audit => x.criteria)
+  have h5 := nested_eq_zero_iff t.n s.locals.wildcards (fun x : Wildcard => x.criteria)
+  have h3 := map_sum_eq_zero_iff t (fun c => badRefs t.n c.implies)
+  refine ⟨h1.1 (by omega), by omega, ?_, h4.1 (by omega), h5.1 (by omega)⟩
+  intro c hc
+  exact (badRefs_eq_zero_iff _ _).1 (h3.1 (by omega) c hc)
+
+/-! ### `validate` -/
+
+theorem validate_nil_iff {t : Table} {s : Store} {maxEnd : Nat} {locked : Bool}
+    {ci : List (Nat × List Nat)} {ln : List Nat} :
+    validate t s maxEnd locked ci ln = [] ↔
+      invalidCriteriaCount t s = 0 ∧ lateWildcards maxEnd s = 0 ∧
+      (locked && importsLockOutdated ci ln s.imports) = false := by
+  unfold validate
+  simp only [List.append_eq_nil_iff, List.replicate_eq_nil_iff, and_assoc]
+  cases (locked && importsLockOutdated ci ln s.imports) <;> simp
+
+theorem validate_ne_nil_of_count {t : Table} {s : Store} {maxEnd : Nat} {locked : Bool}
+    {ci : List (Nat × List Nat)} {ln : List Nat} (h : 0 < invalidCriteriaCount t s) :
+    validate t s maxEnd locked ci ln ≠ [] := by
+  intro hv
+  have := (validate_nil_iff.1 hv).1
+  omega
+
+theorem lateWildcards_eq_zero_iff (maxEnd : Nat) (s : Store) :
+    lateWildcards maxEnd s = 0 ↔ ∀ e ∈ s.locals.wildcards, ∀ w ∈ e.2, w.stop ≤ maxEnd := by
+  unfold lateWildcards
+  rw [map_sum_eq_zero_iff]
+  constructor
+  · intro h e he w hw
+    have := h e he
+    rw [List.length_eq_zero_iff, List.filter_eq_nil_iff] at this
+    have := this w hw
+    simp only [decide_eq_true_eq] at this
+    omega
+  · intro h e he
+    rw [List.length_eq_zero_iff, List.filter_eq_nil_iff]
+    intro w hw
+    have := h e he w hw
+    simp only [decide_eq_true_eq]
+    omega
+
 end Vet
